@@ -60,9 +60,8 @@ ASSUMPTIONS = [
     "without being defined - the property does not say who has to define it)",
     "only byte patterns the assembler produced are disassembled as code; undocumented opcodes are not fed; a "
     "TLCS-870 image either does not touch FFC0h-FFDFh or holds a complete CALLV table there",
-    "4004: an ISZ target is chosen in the page that both (PC+1) and (PC+2) lie in; at page offset $FE the "
-    "assembler's own ISZ check (PC+1) and the processor's behaviour (PC+2, which dasl follows) differ - that "
-    "input is excluded here and reported to the ISA property; a JCN at page offset $FE/$FF to a forward label is "
+    "4004: an ISZ/JCN target lies in the page of the following instruction (PC+2); a JCN at page offset $FE/$FF "
+    "to a forward label is "
     "written with the numeric address (asl rejected the label form in pass 1 before the fix found by this check)",
     "TLCS-870: the direct address 0 cannot be written as (0) (asl: addressing mode not allowed), (hl+0) is (hl); "
     "both are not generated.  Instructions asl flags as 'unpredictable' are still valid input (warning, status 0)",
@@ -296,8 +295,8 @@ def in_range(s, a, t):
         return -16 <= t - (a + 2) <= 15
     if rng == "page2":           # 4004 JCN: the page of the following instruction (assembler, processor, dasl agree)
         return (t >> 8) == ((a + 2) >> 8)
-    if rng == "page12":          # 4004 ISZ: asl checks the page of PC+1, the processor uses PC+2
-        return (t >> 8) == ((a + 1) >> 8) == ((a + 2) >> 8)
+    if rng == "page12":          # 4004 ISZ: like JCN, the page of the following instruction (PC+2) - assembler (since
+        return (t >> 8) == ((a + 2) >> 8)   # the fix found by C14), processor and dasl agree
     if rng == "ffpage":          # TLCS-870 CALLP: FF00h + n
         return 0xff00 <= t <= 0xffff
     raise ValueError(rng)
@@ -865,6 +864,9 @@ def fixed_cases(tier):
     out.append(mk("87C00", [["ld_hl_abs", [1]], ["ld_hl_mem", [0x185]], ["ret", []]]))             # ld (hl),(src)
     out.append(mk("4004", [["jcn", [0, 1]], ["nop", []], ["bbl", [0]]], base=0xfe))                # jcn z,lab_0100
     out.append(mk("4004", [["jcn", [0, 1]], ["nop", []], ["bbl", [0]]], base=0xff))
+    for b in (0xfe, 0xff, 0x1fe, 0x2ff):                                                          # isz at a page end
+        out.append(mk("4004", [["isz", [1, 1]], ["nop", []], ["bbl", [0]]], base=b))
+        out.append(mk("4004", [["isz", [3, 2]], ["nop", []], ["nop", []], ["bbl", [0]]], base=b))
     out.append(dict(mk("87C00", [["callp", [0]], ["ret", []]], data=""),
                     segs=[dict(k="code", ins=[["callp", [0]], ["ret", []]]), dict(k="org", at=0xff00),
                           dict(k="code", ins=[["nop", []], ["ret", []]])]))                        # callp sub_FF00
